@@ -7,6 +7,8 @@ import (
 	"fmt"
 	"os"
 	"path/filepath"
+	"runtime/debug"
+	"runtime/pprof"
 	"strconv"
 
 	"symgo/interp"
@@ -18,6 +20,9 @@ func main() {
 		os.Exit(2)
 	}
 	prop := os.Args[2]
+	if os.Getenv("GOGC") == "" {
+		debug.SetGCPercent(300)
+	}
 	fs := flag.NewFlagSet("check", flag.ExitOnError)
 	cfg := &interp.Config{}
 	fs.StringVar(&cfg.Tier, "tier", envOr("VERIF_TIER", "quick"), "quick or thorough")
@@ -28,7 +33,15 @@ func main() {
 	fs.BoolVar(&cfg.Trace, "trace", false, "trace instructions")
 	fs.StringVar(&cfg.SolverLog, "solverlog", "", "directory for solver transcripts")
 	fs.StringVar(&cfg.Solver, "solver", "", "z3-new (default), z3, cvc5")
+	cpuprof := fs.String("cpuprofile", "", "write a CPU profile")
 	fs.Parse(os.Args[3:])
+	if *cpuprof != "" {
+		f, err := os.Create(*cpuprof)
+		if err == nil {
+			pprof.StartCPUProfile(f)
+			defer pprof.StopCPUProfile()
+		}
+	}
 	if s := os.Getenv("VERIF_SEED"); s != "" {
 		cfg.Seed, _ = strconv.ParseInt(s, 10, 64)
 	}
@@ -49,7 +62,9 @@ func main() {
 	if _, err := os.Stat(filepath.Join(cfg.Verif, "known_findings.json")); err == nil {
 		mustJSON(filepath.Join(cfg.Verif, "known_findings.json"), &kf)
 	}
-	os.Exit(interp.RunProperty(cfg, spec, kf.Known))
+	code := interp.RunProperty(cfg, spec, kf.Known)
+	pprof.StopCPUProfile()
+	os.Exit(code)
 }
 
 func envOr(k, d string) string {
